@@ -339,7 +339,11 @@ fn check(prop: &str, tier: Tier) -> CheckOutcome {
         for e in harness_errors.iter().take(10) {
             eprintln!("HARNESS-ERROR: {e}");
         }
-        exit = 2;
+        // a violation that was minimised and reproduced in a fresh process stands on its
+        // own: exit 2 is reserved for runs that found nothing they can vouch for
+        if exit == 0 {
+            exit = 2;
+        }
     }
 
     // evidence
@@ -554,6 +558,32 @@ fn main() {
                 .unwrap_or(DEFAULT_SEED);
             let unit_seed = rng::run_seed(seed, prop_world(prop), index);
             println!("{}", worlds::describe_unit(prop, unit_seed, index));
+            0
+        }
+        Some("deep-probe") => {
+            // experiment: how many B&B nodes does microlp need on a planted subset-sum model?
+            let n: usize = args.get(2).and_then(|s| s.parse().ok()).unwrap_or(20);
+            let seed: u64 = args.get(3).and_then(|s| s.parse().ok()).unwrap_or(1);
+            let rows: usize = args.get(4).and_then(|s| s.parse().ok()).unwrap_or(1);
+            let mut rng = rng::Rng::new(seed);
+            let m = generate::gen_subset_sum(&mut rng, n, rows, true);
+            let cfg = solvers::RunCfg {
+                entry: solvers::Entry::MilpWith,
+                gap: solvers::GapSpec::Unset,
+                limit: solvers::LimitSpec::HUGE,
+                sched: solvers::Sched::Frozen,
+                budget: 0,
+            };
+            let t = Instant::now();
+            let d = solvers::run_microlp_direct(&m, &cfg);
+            println!(
+                "n={n} rows={rows} seed={seed}: status={:?} nodes={} lp_iterations={} clock_reads={} wall={:.2}s",
+                d.status,
+                d.nodes,
+                d.lp_iterations,
+                d.reads,
+                t.elapsed().as_secs_f64()
+            );
             0
         }
         Some("digest") => {
